@@ -8,6 +8,12 @@
   `C04ScanTotal.fromStringCode_total` (the composed scanner + numeric-phase model reaches no panic site on any text: no buffer
   index or slice out of range, no `to_digit(..).unwrap()` on a non-digit, no table index out of range inside the packer — not
   only on well-formed literals, as `C04ScanNum.fromStringCode_no_panic` had it).
+  What this does NOT establish: anything about the real `bid128_from_string_clear_status` (≈ 430 untranslated lines) beyond its
+  observed agreement with the model (`corr scanner-model`, exact bits and flags on every observed text).  Also: `csModel` below reads
+  the text as `s.toList`; the executable judge (`DecModel/HkJudge.lean`) reads the observed UTF-8 bytes through `utf8Decode?` — the
+  two are not related by a lemma (it would be the UTF-8 round trip of `String`); for the judge's route the corresponding fact is
+  `C04ScanTotal.fromStringCodeBits_total` (for every byte string the model never predicts a panic; bytes that are not UTF-8 are
+  not a `&str` and give no prediction).
   Axioms: `propext`, `Classical.choice`, `Quot.sound`.
 -/
 import DecProofs.Properties.C14GenTextGlue
